@@ -2226,6 +2226,10 @@ def validate_meta(
             else:
                 manager.log(f"Metadata abandoned for {id}: file {path} has different hash")
                 return None
+        elif path != meta.path and not fine_grained_cache:
+            # The cached diagnostics (and the cached tree) refer to the old path.
+            manager.log(f"Metadata abandoned for {id}: file moved from {meta.path} to {path}")
+            return None
         else:
             if manager.stats_enabled:
                 t0 = time.time()
